@@ -56,6 +56,7 @@ import JdProofs.MergeSetModes
 import JdProofs.MergePrecision
 import JdProofs.KeysMergeB
 import JdProofs.KeysMerge
+import JdProps.C09Text
 
 namespace Jd.Props.C11
 open Jd Jd.Spec Jd.Merge
